@@ -777,11 +777,17 @@ def r12(R):
     R.ob("C13-R12", "scanned", "order comparisons with U+D800 in the loaders and cleaners: %d" % n, True)
 
 
-def r13(R):
+def r13(R, rid="C13-R13", only_quoted=False):
     """every line loader removes a trailing comment with a scanner that knows IRIs and literals"""
     prog = R.prog
     from c14 import _char_consts
-    R.rule("C13-R13", "a comment may follow a statement: N-Triples, N-Quads and Turtle allow `<s> <p> <o> . # note`. Every line loader therefore reaches, "
+    if only_quoted:
+        R.rule(rid, "an exported nested quoted triple re-imports: the exporters write the terms of `<< >>` without delimiters, also when a quoted "
+                    "triple is itself a term of a quoted triple, so the comment scanner every line loader applies must keep the *nesting depth* "
+                    "of `<<` / `>>` (a counter that the `#` cut compares with zero) - a flag cleared by the first `>>` takes a `#` in the rest of "
+                    "the outer quoted triple for a comment and the statement is lost on re-import")
+    else:
+      R.rule("C13-R13", "a comment may follow a statement: N-Triples, N-Quads and Turtle allow `<s> <p> <o> . # note`. Every line loader therefore reaches, "
                       "before it tests the statement terminator or tokenises the line, a comment scanner that dispatches on `#` and on the delimiters "
                       "of IRIs (`<`, `>`) and literals (`\"`) - so that a `#` inside an IRI fragment or a string is not taken for a comment. A loader that "
                       "only skips lines *starting* with `#` drops the statement (`missing dot`) or reads the words of the comment as another triple")
@@ -821,17 +827,21 @@ def r13(R):
                                 n = G.normalize_cmp(y, cd)
                                 if n and any(F.op_place(o) and y.alias_root(o) in counters for o in (n[1], n[2])) and any(F.const_int(o) == 0 for o in (n[1], n[2])):
                                     guarded = True
-                    R.ob("C13-R13", "quoted-aware:" + y.name, "%s cuts a line at `#` only outside `<< >>` (nesting counters: %d; the cut is guarded by one: %s)"
+                    R.ob(rid, "quoted-aware:" + y.name, "%s cuts a line at `#` only outside `<< >>` (nesting counters: %d; the cut is guarded by one: %s)"
                          % (y.name, len(counters), guarded), guarded, where=y.where(),
                          detail=None if guarded else "the exporters write `<< http://e/s#a http://e/p v >>`: a scanner that does not count `<<` / `>>` cuts the exported line "
                          "at the fragment, the statement loses its terminator and is dropped on re-import")
         # the scanner is applied to the raw line: called from the body that splits the document into lines (not only from a deeper tokenizer)
         liners = [y for y in reach if not y.is_closure and any(c.name() == "lines" for x in prog.family(y.key) for c in x.calls())]
         direct = [y for y in scanners if any(c.key == y.key for ln in liners for x in prog.family(ln.key) for c in x.calls())]
+        if only_quoted:
+            continue
         R.ob("C13-R13", "strips:" + ent, "%s removes a trailing comment with an IRI- and literal-aware scanner (found: %s)" % (ent, sorted(y.name for y in direct) or "none"),
              bool(direct), where=b.where(),
              detail=None if direct else "`<s> <p> \"v\" . # note` is rejected as `missing dot` (N-Triples, N-Quads) or yields the extra triple (`#`, `note`, ..) (Turtle)")
-    R.floor("C13-R13", "line loaders", found, 4)
+    R.floor(rid, "line loaders", found, 4)
+    if only_quoted:
+        R.floor(rid, "comment scanners judged", len(quoted_checked), 1)
 
 
 def r14(R):
